@@ -96,7 +96,7 @@ def dec(text):
     return one()
 
 
-ERR = [None, None, None]
+ERR = [-7777777, None, -7777777, False]
 
 
 def coq_q(v):
@@ -152,6 +152,7 @@ class Model:
         self.calls += 1
         r = dec(out)
         if r == ERR:
+            open(os.path.join(BUILD, 'rejected_line.txt'), 'w').write(line)
             raise RuntimeError('model decoder rejected arguments of %s: %s' % (fname, line[:300]))
         if golden:
             self.golden.append((fname, list(args), r))
